@@ -33,7 +33,7 @@ RULE = ("(a) random complex Waves on odd/even/rectangular grids 5-64 with 0-2 en
 CLAUSES = ["full-values", "crop-centred", "unshifted-is-ifftshift", "parity", "angle-range", "limits", "crop-method", "crop-method-unshifted",
            "block-inside-zero", "block-outside-unchanged", "block-unshifted", "block-in-pipeline", "history"]
 QUICK = dict(n=220, time=40)
-THOROUGH = dict(n=8000, time=300, shards=16)
+THOROUGH = dict(n=64000, time=480, shards=16)
 ASSUMPTIONS = ["float max_angle values are drawn inside the simulated grid; parity is judged for angle-limited patterns only "
                "(max_angle='full' returns the wave grid by definition)",
                "block_direct(radius=True) via diffraction_patterns(block_direct=True) is not judged: the effective radius of that "
